@@ -1849,7 +1849,7 @@ impl Oracle for SenderOracle {
 			} else {
 				// "Once no HTLC of an outbound payment remains pending the sender reports a terminal event"
 				let in_flight: usize = w.nodes[self.sender].cm.list_channels().iter().map(|c| c.pending_outbound_htlcs.iter().filter(|x| x.payment_hash == p.hash).count()).sum();
-				let on_chain = !w.nodes[self.sender].mon.get_claimable_balances(&[]).is_empty();
+				let on_chain = w.nodes[self.sender].mon.get_claimable_balances(&[]).iter().any(|b| !matches!(b, lightning::chain::channelmonitor::Balance::ClaimableOnChannelClose { .. }));
 				let restarted = w.obs.iter().any(|o| matches!(o, Obs::Restarted { node, .. } if *node == self.sender));
 				if in_flight == 0 && !on_chain && !restarted {
 					return Err(f(format!(
